@@ -226,8 +226,21 @@ def _upwind_part(g, res):
             arrs[ax][idx] = val
             pats.append(arrs)
     pats += [[np.abs(a) for a in gen], [-np.abs(a) for a in gen], [np.zeros_like(a) for a in gen], gen]
+    # every pattern is evaluated twice: on a fresh velocity object, and on one long-lived velocity
+    # object whose components are overwritten in place between the calls (an in-place edit of the
+    # velocity must be honoured by the next call)
+    shared = U.face_from_arrays(g.mesh, [np.ones_like(a) for a in gen])
+    runs = []
     for arrs in pats:
-        got = g.face_arrays(pf.upwindMean(phi, U.face_from_arrays(g.mesh, arrs)))
+        runs.append(("fresh", arrs, U.face_from_arrays(g.mesh, arrs)))
+    for arrs in pats:
+        runs.append(("inplace", arrs, None))
+    for mode, arrs, uobj in runs:
+        if uobj is None:
+            for ax in range(g.d):
+                getattr(shared, U.COMP[ax])[...] = arrs[ax]
+            uobj = shared
+        got = g.face_arrays(pf.upwindMean(phi, uobj))
         res["evals"] += len(g.faces)
         for (ax, idx) in g.faces:
             w = want(ax, idx, arrs[ax][idx])
@@ -236,7 +249,7 @@ def _upwind_part(g, res):
                 uf = arrs[ax][idx]
                 kind = "zero" if uf == 0 else ("inflow_boundary" if ((uf > 0 and idx[ax] == 0) or (uf < 0 and idx[ax] == g.dims[ax])) else
                                                 ("outflow_boundary" if g.is_bface(ax, idx) else "interior"))
-                k = "C11:upwindMean:%s:%dD:axis=%d" % (kind, g.d, ax)
+                k = "C11:upwindMean:%s:%dD:axis=%d%s" % (kind, g.d, ax, ":velocity_edited_in_place" if mode == "inplace" else "")
                 if k in seen:
                     continue
                 seen.add(k)
